@@ -661,6 +661,13 @@ pub struct Selection {
     pub next_invalidating: Option<(usize, usize, String)>,
     /// glyph keyed URI -> table it is attributed to
     pub glyph_owner: BTreeMap<String, usize>,
+    /// reference invalidating choices in group order (IFT's, then IFTX's)
+    pub ref_invalidating: Vec<String>,
+    /// IFTX's overall best partially invalidating candidate has the URI selected for IFT and
+    /// another IFTX candidate (a different URI) takes its place
+    pub iftx_fallback: bool,
+    /// ... and no other IFTX candidate exists
+    pub iftx_shadowed: bool,
 }
 
 fn best<'a>(c: impl Iterator<Item = &'a Cand>) -> Vec<&'a Cand> {
@@ -701,6 +708,7 @@ pub fn expected_selection(font: &AbsFont, cands: &[Cand]) -> Selection {
             s.full_best.insert(uri(c));
         }
         s.exact = s.full_best.clone();
+        s.ref_invalidating = s.full_best.iter().cloned().collect();
         // the library keeps the last maximal one
         let c = fulls.last().unwrap();
         s.next_invalidating = Some((c.table, c.idx, uri(c)));
@@ -719,6 +727,11 @@ pub fn expected_selection(font: &AbsFont, cands: &[Cand]) -> Selection {
     }
     s.exact.extend(a.iter().cloned());
     s.exact.extend(b.iter().cloned());
+    s.ref_invalidating = a.iter().chain(b.iter()).cloned().collect();
+    if a.is_some() && s.partial_best[1] == a {
+        s.iftx_fallback = b.is_some();
+        s.iftx_shadowed = b.is_none();
+    }
     if a.is_none() {
         for c in cands.iter().filter(|c| c.fmt == Fmt::Glyph && c.table == 0) {
             if Some(uri(c)) != b {
